@@ -240,6 +240,9 @@ func emailFromIDToken(idToken string) (string, error) {
 	// id_token is a base64 encode ID token payload
 	// https://developers.google.com/accounts/docs/OAuth2Login#obtainuserinfo
 	jwt := strings.Split(idToken, ".")
+	if len(jwt) < 2 {
+		return "", errors.New("malformed id_token")
+	}
 	b, err := jwtDecodeSegment(jwt[1])
 	if err != nil {
 		return "", err
